@@ -392,3 +392,24 @@ Example C13_held_nonvacuous :
   /\ key_get (xkey ops 10 1) 7 = 21 /\ key_get (xkey ops 13 2) (-1) = 0 /\ xkey ops 13 2 = xkey ops 13 1
   /\ xkey ops 13 3 = mkKey 9 (mkScale [0; 1; 3; 7; 8] 12).
 Proof. vm_compute. repeat split. Qed.
+
+(** * what a registered NAME denotes is not changed by later, unrelated constructions *)
+(* for every store and EVERY history of operations that do not write the registered Scale object itself - scales and weighted
+   scales constructed under any name (also this one), copies (they carry the name of their original) and their later
+   editing, keys built from objects or names, other keys and scales re-tuned - the name is still registered to the same
+   object and Scale.byname(name) / Key(t, name) / Key("D name") / an event's key string give the same scale *)
+Theorem C13_name_denotes_stable : forall ops st name r,
+  reg_of st name = Some r -> Forall (fun o => op_oid o <> Some r) ops ->
+  reg_of (hrun st ops) name = Some r /\ reg_scale (hrun st ops) name = reg_scale st name.
+Proof. exact name_stable_run. Qed.
+Print Assumptions C13_name_denotes_stable.
+
+Example C13_name_nonvacuous :
+  let ops := [HScaleCopy 200 3; HSemis 200 [0; 2; 3; 6; 7; 8; 11]; HScale 201 "minor" (mkScale [0; 1; 2] 12);
+              HScale 202 "major" (mkScale [0; 4; 7] 12); HKeyNamed 0 9 "minor"; HKey 1 0 200] in
+  reg_of init_store "minor" = Some 3%nat
+  /\ forallb (fun o => match op_oid o with Some r => negb (Nat.eqb r 3) | None => true end) ops = true
+  /\ key_of (hrun init_store ops) 0 = Some (mkKey 9 (mkScale [0; 2; 3; 5; 7; 8; 10] 12))
+  /\ key_of (hrun init_store ops) 1 = Some (mkKey 0 (mkScale [0; 2; 3; 6; 7; 8; 11] 12))
+  /\ reg_scale (hrun init_store ops) "major" = Some (mkScale [0; 2; 4; 5; 7; 9; 11] 12).
+Proof. vm_compute. repeat split. Qed.
